@@ -481,7 +481,7 @@ func genPair(t *rapid.T, ka, kb exact.Kind, relatedBias int, mustClose, allowEmp
 	R := rapid.SampledFrom([]int64{4, 6, 6, 8, 12}).Draw(t, "R")
 	maxN := 8
 	if rapid.IntRange(0, 9).Draw(t, "bigring") == 0 {
-		R, maxN = 40, 40 // rings above the 16-point shortcut and the index thresholds
+		R, maxN = 40, rapid.SampledFrom([]int{40, 40, 80}).Draw(t, "bigmax") // rings above the 16-point shortcut and the index thresholds (64)
 	}
 	A := genShapeOfKind(t, ka, R, maxN, mustClose)
 	var B exact.Shape
@@ -496,6 +496,18 @@ func genPair(t *rapid.T, ka, kb exact.Kind, relatedBias int, mustClose, allowEmp
 		R = R + r2
 	} else {
 		B = genShapeOfKind(t, kb, R, maxN, mustClose)
+	}
+	if rapid.IntRange(0, 7).Draw(t, "densify") == 0 {
+		// same point sets with many more vertices: every edge gets intermediate collinear vertices, so that small
+		// shapes reach the >= 16-point shortcut of ringContainsRing and the index thresholds
+		const m = 4
+		f := func(p exact.P) exact.P { return exact.P{X: m * p.X, Y: m * p.Y} }
+		A, B = mapShape(A, f), mapShape(B, f)
+		R *= m
+		B = densifyShape(B, rapid.IntRange(1, 3).Draw(t, "densB"))
+		if rapid.Bool().Draw(t, "densA") {
+			A = densifyShape(A, rapid.IntRange(1, 3).Draw(t, "densAk"))
+		}
 	}
 	if allowEmpty && rapid.IntRange(0, 39).Draw(t, "empty") == 0 {
 		// empty operand: a line of fewer than two, a polygon of fewer than three positions
@@ -616,4 +628,66 @@ func boxInside(A, B *exact.Shape) bool { // B's box inside A's box
 	a0, a1 := boxOf(A)
 	b0, b1 := boxOf(B)
 	return a0.X <= b0.X && b1.X <= a1.X && a0.Y <= b0.Y && b1.Y <= a1.Y
+}
+
+// densifySeq inserts up to k lattice points inside every edge of a vertex sequence (closed sequences stay closed).
+func densifySeq(pts []exact.P, k int) []exact.P {
+	if len(pts) < 2 {
+		return pts
+	}
+	var out []exact.P
+	for i := 0; i+1 < len(pts); i++ {
+		a, b := pts[i], pts[i+1]
+		out = append(out, a)
+		g := gcd(abs64(b.X-a.X), abs64(b.Y-a.Y))
+		if g > 1 {
+			n := int64(k)
+			if n > g-1 {
+				n = g - 1
+			}
+			for j := int64(1); j <= n; j++ {
+				step := j * g / (n + 1)
+				if step <= 0 || step >= g {
+					continue
+				}
+				q := exact.P{X: a.X + step*((b.X-a.X)/g), Y: a.Y + step*((b.Y-a.Y)/g)}
+				if q != out[len(out)-1] {
+					out = append(out, q)
+				}
+			}
+		}
+	}
+	return append(out, pts[len(pts)-1])
+}
+
+func densifyShape(s exact.Shape, k int) exact.Shape {
+	switch s.K {
+	case exact.KLine:
+		t := s
+		t.Line = densifySeq(s.Line, k)
+		return t
+	case exact.KPoly:
+		t := s
+		ring := func(r []exact.P) []exact.P {
+			closed := len(r) >= 2 && r[0] == r[len(r)-1]
+			c := r
+			if !closed {
+				c = append(append([]exact.P{}, r...), r[0])
+			}
+			d := densifySeq(c, k)
+			if !closed {
+				d = d[:len(d)-1]
+			}
+			return d
+		}
+		if len(s.Ext) >= 3 {
+			t.Ext = ring(s.Ext)
+		}
+		t.Holes = nil
+		for _, h := range s.Holes {
+			t.Holes = append(t.Holes, ring(h))
+		}
+		return t
+	}
+	return s
 }
